@@ -148,6 +148,10 @@ class DelayEval(object):
                         if k >= 0:
                             return (MinOf([f.scale(k) for f in b[0].forms]), MinOf([f.scale(k) for f in b[1].forms]))
                 raise Unsupported('product %s' % U(e))
+        if isinstance(e, ast.Call) and U(e.func) in ('math.pow', 'pow') and len(e.args) == 2 and \
+                any(t.kind == 'ext' and t.name == 'math.pow' for t in run.types.call_targets(e, self.g.ctx)):
+            raise Unsupported('float-overflow: math.pow(2, retries) raises OverflowError once retries reaches 1024, '
+                              'which ends persist() by itself; use the integer power 2**retries')
         if isinstance(e, ast.Call) and isinstance(e.func, ast.Name) and e.func.id in ('min', 'max') \
                 and not run.types.name_types(e.func.id, self.g.ctx) and len(e.args) >= 2 and not e.keywords:
             vals = [self.ev(n, a) for a in e.args]
@@ -314,6 +318,12 @@ def check(run):
                  'BackOff(%s) but exit_event.wait(%s) - different values' % (U(arg), U(warg)),
                  func=FN, node=w.ast)
         delay_defs.append((call_node, arg))
+    bi = R.func('events.BackOff.__init__')
+    st = [s_ for s_ in own_nodes(bi.node) if isinstance(s_, ast.Assign) and U(s_.targets[0]) == 'self.delay']
+    p0 = [p_ for p_ in bi.params if p_ != 'self'][0]
+    R.ob('C16.onebackoff', 'BackOff reports the delay it was given', len(st) == 1 and U(st[0].value) == p0,
+         'events.BackOff stores %s as its delay: the reported delay differs from the time actually waited and can leave '
+         '[min_wait, max_wait]' % [U(s_.value) for s_ in st], func=bi, node=(st[0] if st else None))
     R.ob('C16.onebackoff', 'the exit test waits', bool(wait_tests),
          'persist() does not wait (exit_event.wait(delay)) between attempts', func=FN, node=f.node,
          construct='persist: no exit_event.wait')
@@ -331,7 +341,7 @@ def check(run):
         except Unsupported as e:
             # max(...) / wrong shapes that are *evaluable but unbounded* are violations; unknown syntax is exit 2
             msg = str(e)
-            if msg.startswith('max(') or 'not provably non-negative' in msg:
+            if msg.startswith('max(') or 'not provably non-negative' in msg or msg.startswith('float-overflow'):
                 R.ob('C16.bounds', 'delay upper bound', False, 'delay %s: %s' % (U(arg), msg), func=FN, node=b.ast)
                 continue
             raise AnalysisError('C16.bounds cannot evaluate the delay expression: %s' % msg)
